@@ -28,41 +28,50 @@ Theorem C13_columns_isolation : forall ops X expr p,
 Proof. exact columns_isolation. Qed.
 Print Assumptions C13_columns_isolation.
 
-(* Full statement (FALSE for the code, see C13_expand_regex_metachar_refuted):
-     forall s X es expr, expand s X es expr = expand_glob s X es expr
-   i.e. the expansion names exactly the tables / aliases that match under glob
-   semantics (only '*' special).  Proved with the exact guard: every comma term that
-   contains '*' is free of the regex metacharacters . + ? \ ( ) [ ] { } | ^ $
-   (and stored names contain no newline). *)
-Theorem C13_expand_is_glob_guarded : forall s X es expr,
-  expr_glob_safe expr = true -> names_ok s X = true ->
+(* The expansion names exactly the tables / aliases that match under glob semantics (only '*'
+   is special), for every state, pattern and name — full strength, no guard.  [expand] follows the
+   FIXED code (fixes/C13-quote-index-pattern: regexp.QuoteMeta on the literal parts of the pattern). *)
+Theorem C13_expand_is_glob : forall s X es expr,
   expand s X es expr = expand_glob s X es expr.
-Proof. exact expand_is_glob_guarded. Qed.
-Print Assumptions C13_expand_is_glob_guarded.
+Proof. exact expand_is_glob. Qed.
+Print Assumptions C13_expand_is_glob.
 
-(* ... hence under the guard a query returns only own events of indexes named under glob semantics *)
-Theorem C13_query_names_glob_guarded : forall ops X expr i,
-  expr_glob_safe expr = true -> names_ok (run ops) X = true ->
+(* ... hence a query returns only own events of indexes named under glob semantics *)
+Theorem C13_query_names_glob : forall ops X expr i,
   In i (map e_id (q_events (run ops) X expr)) ->
   exists e, In e (evs (run ops)) /\ e_id e = i /\ e_org e = X /\
             In (e_tab e) (expand_glob (run ops) X false expr) /\ ingested ops X i.
-Proof. exact query_names_glob_guarded. Qed.
-Print Assumptions C13_query_names_glob_guarded.
+Proof. exact query_names_glob. Qed.
+Print Assumptions C13_query_names_glob.
 
-(* CONFIRMED on the real code: the expression a.b* does not name index aXb1 (glob) but
-   the code's expansion contains it and the query returns its event. *)
-Theorem C13_expand_regex_metachar_refuted :
-  exists ops X expr t i,
-    In t (expand (run ops) X false expr) /\
+(* regression witness of the repaired defect: a.b* of org 1 names a.b1 only, the event of aXb1 is not returned *)
+Example C13_fixed_pattern_does_not_name_aXb1 :
+  let ops := [Ingest 1 w_adotb1 [1]; Ingest 1 w_aXb1 [2]] in
+  expand (run ops) 1 false w_pat = [w_adotb1] /\ map e_id (q_events (run ops) 1 w_pat) = [1].
+Proof. exact fixed_pattern_does_not_name_aXb1. Qed.
+
+(* ---- PRE-FIX documentation (about [expand_prefix], the unquoted translation
+   "^" + ReplaceAll(pattern, "*", ".*") + "$"; no longer the code) ----
+   Before the fix the statement above held only under the guard "no regex metacharacter in a comma
+   term that contains '*'", and was refuted without it: a.b* also named aXb1 (confirmed on the
+   pre-fix code; the harness keeps the generator stream, a regression is class
+   index_pattern_regex_metachar). *)
+Theorem C13_prefix_expand_is_glob_guarded : forall s X es expr,
+  expr_glob_safe expr = true -> names_ok s X = true ->
+  expand_prefix s X es expr = expand_glob s X es expr.
+Proof. exact prefix_expand_is_glob_guarded. Qed.
+Print Assumptions C13_prefix_expand_is_glob_guarded.
+Example C13_prefix_expand_guard_satisfiable : expr_glob_safe [97;42;44;97;46;98;49] = true.  (* "a*,a.b1" *)
+Proof. exact expr_glob_safe_sat. Qed.
+
+Theorem C13_prefix_expand_regex_metachar_refuted :
+  exists ops X expr t,
+    In t (expand_prefix (run ops) X false expr) /\
     ~ In t (expand_glob (run ops) X false expr) /\
     glob_match expr t = false /\
-    In i (map e_id (q_events (run ops) X expr)) /\
-    (exists e, In e (evs (run ops)) /\ e_id e = i /\ e_tab e = t).
-Proof. exact expand_regex_metachar_refuted. Qed.
-Print Assumptions C13_expand_regex_metachar_refuted.
-
-Example C13_expand_guard_satisfiable : expr_glob_safe [97;42;44;97;46;98;49] = true.  (* "a*,a.b1" *)
-Proof. exact expr_glob_safe_sat. Qed.
+    (exists e, In e (evs (run ops)) /\ e_org e = X /\ e_tab e = t).
+Proof. exact prefix_expand_regex_metachar_refuted. Qed.
+Print Assumptions C13_prefix_expand_regex_metachar_refuted.
 
 (* delete-index of [expr] by org X: every event whose index is one of the expanded names
    present in X's index list is gone afterwards. *)
